@@ -591,11 +591,19 @@ class DataFileManager:
                     value.time() != datetime.time(0, 0) or value.tzinfo is not None
                 ):
                     problem = "a datetime with a time of day (or zone) would be cut to its date"
-                elif kind == "timestamp" and isinstance(value, datetime.datetime) and value.tzinfo is not None:
+                elif (
+                    kind == "timestamp"
+                    and isinstance(value, datetime.datetime)
+                    and value.tzinfo is not None
+                    and value.utcoffset() != datetime.timedelta(0)
+                ):
+                    # (a UTC-aware value is stored as the same wall-clock reading)
                     problem = (
-                        "a zone-aware datetime would be shifted to UTC and lose its zone "
+                        "a datetime with a non-UTC zone would be shifted to UTC and lose its zone "
                         "(the column is a timestamp WITHOUT zone)"
                     )
+                elif kind == "time" and isinstance(value, datetime.time) and value.tzinfo is not None:
+                    problem = "a zone-aware time would lose its zone (the column is a plain time of day)"
                 if problem:
                     raise ValueError(
                         f"Record {i}: value {value!r} for {kind} field '{name}': {problem}; "
